@@ -206,6 +206,13 @@ def _region_store_values(chk, pid):
         region_inplace_corners(chk, pid, q)
 
 
+def _if_stmt(v, testexpr):
+    for st in v.stmts():
+        if isinstance(st, (ast.If, ast.While)) and st.test is testexpr:
+            return st
+    raise AnalysisError("internal: test expression without statement")
+
+
 def _guard_in_function(w, cond_text):
     for r, name in w.raises():
         par = w.cfg.parent.get(id(r))
@@ -261,6 +268,14 @@ def _mesh_store_values(chk, pid):
     for s, a_, val in stores:
         t = v.term(val, at=s)
         c = decode_call(v.ctx, t)
+        from_cell = any(pol and v.ctx.mentions(v.ev.term(ct, at=_if_stmt(v, ct)), v.spec("cell is not None"))
+                        for ct, pol in v.cfg.path_condition(s))
+        if from_cell and not (c and c[0] == "astype" and is_sym(v.ctx, c[1][1], "int") and
+                              (decode_call(v.ctx, c[1][0]) or ("",))[0] == ".round"):
+            chk.ob("mesh.Mesh.__init__::store::_n::from-cell", False, f"{pid}.D1",
+                   f"_n={v.show(t)[:120]}; expected round(edges/cell) converted to int (truncation loses a cell when edges/cell "
+                   "is just below a whole number)", v.f, s)
+            continue
         if c and c[0] == "astype" and is_sym(v.ctx, c[1][1], "int"):
             inner = c[1][0]
             ci = decode_call(v.ctx, inner)
